@@ -163,6 +163,7 @@ def scenarios(tier):
         ok = T('ok')
         out.append((f'{T.__name__}:fail-leaf', [T('dep', (bad, ok)), T('ign', (bad, ok), 'ignore'), ok], []))
         out.append((f'{T.__name__}:exit-leaf', [T('dep', (T('bad', (), 'exit'), ok)), ok], []))
+        out.append((f'{T.__name__}:fail-without-message', [T('dep', (T('bad', (), 'fail0'), ok)), ok, T('bad2', (), 'fail0')], []))
         # a failure two and three levels below the top, and in the middle of a chain (every level above must still be dealt with)
         out.append((f'{T.__name__}:fail-deep', [T('top', (T('mid', (T('low', (bad,)), ok)),)), ok], []))
         out.append((f'{T.__name__}:fail-mid', [T('top', (T('mid', (ok,), 'fail'),)), T('side', (ok,))], []))
@@ -175,6 +176,10 @@ def scenarios(tier):
     out.append(('K:warm-top', [K('top', (t1,))], [t1]))
     out.append(('K:warm-mid', [K('top', (t1, d2))], [d1]))
     out.append(('K:warm-all', [t1], [t1, d1, d2]))
+    # a cached task FOLLOWS an un-cached one that has dependencies, in the request list and one level down (a task served from
+    # the cache waits for nothing, and nothing is kept for it)
+    out.append(('K:cached-after-uncached', [K('u', (K('d'),)), K('c')], [K('c')]))
+    out.append(('K:cached-after-uncached-below', [K('top', (K('u', (K('d'),)), K('c', (K('e'),))))], [K('c', (K('e'),))]))
     if tier == 'thorough':
         for T in (A, B):
             ds = [T(f'd{i}') for i in range(4)]
@@ -392,6 +397,8 @@ def explore_warm_cache():
                 if found:
                     return found
     found += explore_cache_histories()
+    if not found:
+        found += explore_more_histories()
     return found
 
 
@@ -455,6 +462,77 @@ def explore_cache_histories():
                 found.append(dict(prop='C01', scenario=f'history/{backend}/cached task reached through two equal instances', message='a parent of the cached task did not get a result'))
         if found:
             return found
+    return found
+
+
+def explore_more_histories():
+    """(c) a cached task WITH dependencies whose stored result can no longer be read: it was planned as a load, so its
+           dependencies are not part of this call -- its run() must not be entered (the task fails instead);
+       (d) equal tasks that serialise differently (1 / 1.0 / True, a dict with its keys in another order) requested
+           together are ONE task: one execution;
+       (e) the results map drains (an independent task finishes first and is released) while another chain is still to
+           run: the later dependent must still find its dependency's result -- under every backend."""
+    import labtech
+    from replay.universe import KC, KN, KV
+    logging.getLogger('labtech').setLevel(logging.CRITICAL)
+    found = []
+
+    def names(marks):
+        return sorted(f.split('-')[0] for f in os.listdir(marks))
+    for backend in ('serial', 'fork'):
+        with tempfile.TemporaryDirectory() as d, tempfile.TemporaryDirectory() as marks:
+            os.environ['EXPLORE_EXEC_DIR'] = marks
+            try:
+                leaf = KC('l')
+                top = KC('t', (leaf,))
+                lab = labtech.Lab(storage=d, runner_backend=backend, max_workers=2, continue_on_failure=True)
+                lab.run_tasks([top], disable_progress=True, disable_top=True)
+                lab.uncache_tasks([leaf])
+                n1 = names(marks)
+                import glob as _glob
+                for f in _glob.glob(os.path.join(d, top.cache_key, '*')):
+                    if not f.endswith('metadata.json'):
+                        with open(f, 'r+b') as fh:
+                            fh.truncate(3)
+                r = lab.run_tasks([top], disable_progress=True, disable_top=True)
+                n2 = names(marks)
+            finally:
+                os.environ.pop('EXPLORE_EXEC_DIR', None)
+            if n2 != n1:
+                msg = (f'the stored result of the cached task t could not be read; its run() was entered ({n2[len(n1):]} executed) in a call in which its '
+                       f'dependency l neither ran nor was loaded (t was planned as a cache load)')
+                found.append(dict(prop='C02', scenario=f'history/{backend}/unreadable cached entry', message=msg))
+                found.append(dict(prop='C03', scenario=f'history/{backend}/unreadable cached entry', message=msg))
+            elif top in r:
+                found.append(dict(prop='C06', scenario=f'history/{backend}/unreadable cached entry', message=f'an unreadable entry was reported as a cache hit with value {r[top]!r}'))
+        if found:
+            return found
+        with tempfile.TemporaryDirectory() as d, tempfile.TemporaryDirectory() as marks:
+            os.environ['EXPLORE_EXEC_DIR'] = marks
+            try:
+                lab = labtech.Lab(storage=d, runner_backend=backend, max_workers=2)
+                variants = [KV('v', ({'a': 1, 'b': 2}, 1)), KV('v', ({'b': 2, 'a': 1}, 1.0)), KV('v', ({'a': 1, 'b': 2}, True))]
+                r = lab.run_tasks(variants, disable_progress=True, disable_top=True)
+                n = names(marks)
+            finally:
+                os.environ.pop('EXPLORE_EXEC_DIR', None)
+            if variants[0] == variants[1] == variants[2] and n != ['v']:
+                found.append(dict(prop='C03', scenario=f'history/{backend}/equal tasks that serialise differently',
+                                  message=f'three == tasks (dict keys in another order; 1 / 1.0 / True) requested together were executed {len(n)} times (equal tasks are one task)'))
+        if found:
+            return found
+    for backend in ('serial', 'fork', 'spawn'):
+        for workers in (1, 3):
+            with tempfile.TemporaryDirectory() as d:
+                lab = labtech.Lab(storage=d, runner_backend=backend, max_workers=workers, continue_on_failure=True)
+                q, p = KN('q'), KN('p')
+                t = KN('t', (p,))
+                r = lab.run_tasks([q, t], disable_progress=True, disable_top=True)
+            want = ('KN', 't', (('KN', 'p', ()),))
+            if r.get(t) != want:
+                found.append(dict(prop='C02', scenario=f'history/{backend}/max_workers={workers}/independent task finishes first',
+                                  message=f'run_tasks([q, t(p)]): t should read its dependency p\'s result of this call and return {want!r}; got {r.get(t, "<t failed>")!r}'))
+                return found
     return found
 
 
@@ -662,9 +740,14 @@ def explore_real(tier, props):
             runs += 1
             if w:
                 found.append(dict(prop='C04', scenario='real/serial/thread', message=w))
-        if props & {'C05', 'C11', 'C10'}:
+        if props & {'C05', 'C11', 'C10', 'C03'}:
             r = run_real('death-then-work', backend, 2)
             runs += 1
+            starts = [tag for _, tag in r['evs'] if tag.startswith('start-Die-')]
+            if len(starts) > 1:
+                found.append(dict(prop='C03', scenario=f'real/{backend}/death-then-work', message=f'run() of a task whose worker process was killed was entered {len(starts)} times within one run_tasks call (submitted once)'))
+            if not props & {'C05', 'C11', 'C10'}:
+                continue
             if r['hung']:
                 found.append(dict(prop='C11', scenario=f'real/{backend}/death-then-work', message='run_tasks did not terminate within 40s after a worker was killed'))
             elif r['peak'] < 2 and run_real('death-then-work', backend, 2)['peak'] < 2 and run_real('death-then-work', backend, 2)['peak'] < 2:
@@ -790,7 +873,7 @@ def main():
         if a.prop in ('C02', 'C01', 'C03', 'C06', ''):
             f3 = explore_multicall()
             mine3 = [f for f in f3 if not a.prop or f['prop'] == a.prop or a.prop == 'C01']
-            items.append(dict(name='explore:multi-call-histories', bounded=True, bound='2 histories of 3 run_tasks calls over the same task objects; 8 cold/warm call pairs over a caching storage (backend pairs x same/new Lab); bust_cache after a cold run; a cached task reached through two equal instances',
+            items.append(dict(name='explore:multi-call-histories', bounded=True, bound='2 histories of 3 run_tasks calls over the same task objects; 8 cold/warm call pairs over a caching storage (backend pairs x same/new Lab); bust_cache after a cold run; a cached task reached through two equal instances; an unreadable cached entry of a task with dependencies; == tasks that serialise differently; an independent task finishing first under serial/fork/spawn x max_workers 1/3',
                               violation=bool(mine3), witness=mine3[:3]))
         if a.prop in ('C01', 'C02', 'C03', ''):
             import replay.values as _V
@@ -806,8 +889,8 @@ def main():
             mine_w = [w] if (w and (not a.prop or w['prop'] == a.prop or True)) else []
             items.append(dict(name='explore:worker-ceiling', bounded=True, bound='ProcessExecutor(max_workers) for max_workers in {None, 1, 2, cpu, cpu+3, 4*cpu+1}',
                               violation=bool(mine_w), witness=mine_w))
-        if a.prop in ('C04', 'C05', 'C10', 'C11', ''):
-            found2, runs = explore_real(a.tier, {a.prop} if a.prop else {'C04', 'C05', 'C10', 'C11'})
+        if a.prop in ('C03', 'C04', 'C05', 'C10', 'C11', ''):
+            found2, runs = explore_real(a.tier, {a.prop} if a.prop else {'C03', 'C04', 'C05', 'C10', 'C11'})
             mine2 = [f for f in found2 if not a.prop or f['prop'] == a.prop]
             items.append(dict(name='explore:real-process-backends', bounded=True,
                               bound=f'{runs} timed runs with real worker processes (peak concurrency from start/end marks; worker death by SIGKILL, os._exit and an unpicklable result; watchdog)',
